@@ -35,8 +35,20 @@ the mounts'.
 C27 oracle (monitor): during every BASIC statement every path seen by the simfs wrappers and,
 independently, by the audit hook must resolve inside a mount root, except an allow-list fixed in
 advance (os.devnull; read-only access under sys.prefix / the stdlib / the pcbasic package directory
-for imports and package data). The sentinel trees are byte-identical at the end; sentinel marker
-contents and never-typed sentinel names appear in no statement output and in no file inside a mount.
+for imports and package data; the suspend/resume state file named by the harness). rename/remove/
+rmdir do not follow a final symbolic link, so for those the entry really operated on is recorded too
+(zone 'mount-point-symlink' when it is the link a drive is mounted through); a path containing a NUL
+never reaches the host and is not judged. The sentinel trees (process cwd included) are byte-identical
+at the end; sentinel marker contents and never-typed sentinel names appear in no statement output and
+in no file inside a mount. Signatures are outside-mount:<call class>:<where>:<path shape>, with
+':mount-<spelling class>' appended when the drive the path addresses is mounted under a spelling other
+than the plain absolute path; the path shape of a restart is 'suspend' / 'resume'.
+
+Found on the unchanged tree by the wider configuration (both reproduced by hand, see the report):
+  * KILL on a drive mounted by a relative host path removes <root>/<root>/<name> (disk.py:kill joins
+    native_dir onto names that _get_dirs_files already made complete): outside-mount:remove:*:mount-relative
+  * NAME "\\" AS ... / RMDIR "\\" hand the mount point itself to os.rename / os.rmdir; through a symbolic
+    link NAME moves the link out of its directory: outside-mount:rename|rmdir:mount-point-symlink
 
 C28 oracle: the live host directory is the ground truth (listed by the harness between
 statements, so files that 'another party' made vanish or appear are simply part of it). For a
@@ -54,6 +66,7 @@ case are left unjudged for the same reason.
 import os
 import re
 import sys
+import logging
 import stat as _stat
 
 from .. import kernel as K
@@ -203,11 +216,11 @@ def rand_weak(rng):
 
 DIRSEG = ['..', '..', '..', '.', '...', '....', 'SUB', 'sub', 'Sub', 'DEEP', 'LongDirName', 'LONGDI~1', 'LONGDIRN',
           'secret', 'SECRET', 'mountC', 'mountD', 'mountCX', 'outer', 'proccwd', '*', '?', '', ' ', '.. ', '..\\..',
-          'NEWDIR', 'MIXed', 'caf\xe9', 'linkC', 'linkD', 'D3', 'away', 'harness']
+          'NEWDIR', 'MIXed', 'caf\xe9', 'linkC', 'linkD', 'D3', 'away', 'harness', '..\x00', '.\x00', '..\x00X', 'SUB\x00']
 LEAF27 = ['SENTINEL.TXT', 'SENTINEL.BAS', 'sentinel.txt', 'SENTINEL', 'SENTINEL.*', '*.*', '*', '????????.???',
           'S.BAS', 'SECRET.TXT', 'PFX.TXT', 'TOP.TXT', 'CWDSENT.TXT', 'A.TXT', 'a.txt', 'B.BAS', 'B', 'NEW1.TXT',
           'NEW2', 'X', '..', '.', '', '...', 'LongFileName.txt', 'caf\xe9.txt', 'mountC', 'mountD', 'secret', 'outer',
-          'SUB', 'DEEP', 'NEWDIR', 'D.DAT', '.. ', '..\\', 'NUL', 'PRN', 'S1.TXT', 'linkC', 'FS.STATE']
+          'SUB', 'DEEP', 'NEWDIR', 'D.DAT', '.. ', '..\\', 'NUL', 'PRN', 'S1.TXT', 'linkC', 'FS.STATE', '..\x00', 'A.TXT\x00']
 DRIVES27 = (['', 'C:', '', 'D:'] * 6 + ['c:', 'd:', '@:', 'A:', 'Z:', 'C:D:', 'D:C:', 'C:\\D:'] * 2 +
             ['1:', 'CD:', ':', 'AB:', '@A:'])
 LEADS27 = ['', '', '', '', '\\', '\\', '\\\\', '\\\\?\\', '\\\\.\\', '\\\\A\\', '\\\\SUB\\', '\\\\SUB\\DEEP\\', '/',
@@ -804,6 +817,7 @@ class Env(object):
         fs.calls = []
         fs.audit = []
         fs.monitor = True
+        what = 'Session.resume() with files open, after the other party did %r while it was down%s' % (done, spelled)
         try:
             try:
                 s2 = d._guard('resume', lambda: Session.resume(self.statefile))
@@ -813,13 +827,13 @@ class Env(object):
                 raise
         finally:
             fs.monitor = False
+            # (also when the resume crashed: what it touched until then is judged, and the state file goes)
+            self.check_monitor(what, 'resume')
+            try:
+                os.remove(self.statefile)
+            except OSError:
+                pass
         w.faults['restart'] += 1
-        what = 'Session.resume() with files open, after the other party did %r while it was down%s' % (done, spelled)
-        self.check_monitor(what, 'resume')
-        try:
-            os.remove(self.statefile)
-        except OSError:
-            pass
         if op.get('back'):
             for drv in sorted(self.gone):
                 do_host(self, {'op': 'host', 'act': 'remount', 'd': drv})
@@ -932,7 +946,8 @@ class Env(object):
                 seen.add(key)
                 run.probe('outside-call')
                 self.causes.add(shape)
-                run.violate('C27', 'outside-mount:%s:%s:%s' % (kc, z, shape),
+                # (the link a drive is mounted through is one place, whatever path led the statement to it)
+                run.violate('C27', 'outside-mount:%s:%s' % (kc, z) + (':' + shape if z != 'mount-point-symlink' else ''),
                             '%s made a host call outside every mount: %s(%s) [seen by %s]; statement: %r' % (
                                 what.split(' ')[0], kind, self.rel(rp), src, what))
                 if z == 'mount-point-symlink':
@@ -1645,6 +1660,8 @@ def _install_guard():
 def run(case):
     _install_guard()
     simfs.install_fs_seams()
+    # the engine logs a warning for every file it cannot re-open on resume
+    logging.disable(logging.ERROR)
 
     def body(run):
         cfg = case['cfg']
@@ -1680,6 +1697,9 @@ def run(case):
             K.WORLD = None
             for drv in sorted(env.gone):
                 do_host(env, {'op': 'host', 'act': 'remount', 'd': drv}, when='end')
+            if os.path.lexists(env.statefile):
+                # a suspend or resume that crashed half-way: the state file is the harness's, not a sentinel
+                os.remove(env.statefile)
             env.final_checks()
 
     return execute(case, body)
